@@ -258,7 +258,7 @@ impl Prop for C16 {
 		"A scenario is a writer history without failing values (fixed sync marker) executed once against an accept-everything sink (baseline stream B), then against every configuration of the enumerated space: \
 		 Fixed(k) for k in {1,2,3,5,7,15,16,17,19,20,21,4096} and a random 3-cycle, each with a sink that implements write_vectored (accepting across slice boundaries) and one that only implements write; \
 		 on two base plans: ErrorKind::Interrupted at EVERY sink call index (singly and in bursts of 3); a hard error (Other | BrokenPipe | StorageFull) and Ok(0) at EVERY sink call index (capped at fault_cap indices per base plan on long streams, then the first 24 + evenly spread). \
-		 An evaluation is one complete history executed against one sink configuration. Non-trivial = a partial accept or a fault fired; distinct = distinct (fault kind, class of the call hit: file-header | block-header | block-data | block-sync | plain-write, vectored?, slice in which the first partial accept ended, outcome). Vectored sinks also accept exactly n whole slices; an Interrupted at i may be followed by a hard error at j > i; after a CLEAN hard failure (nothing of the call accepted) the history goes on against the recovered sink and the final stream must be the baseline's or, judged by the reference parser, a valid file holding every other call's values in order plus all or none of the failed call's (serialize_all excepted: it stops at the failing item by contract). Five more configurations interrupt every 2nd / 3rd / 5th sink call over the WHOLE life of the writer (the number of interruptions grows with the history: hundreds to thousands). One workload in forty is a LONG history (250-400 values, a block per value or every few values). One workload in twelve carries a block of several KiB."
+		 An evaluation is one complete history executed against one sink configuration. Non-trivial = a partial accept or a fault fired; distinct = distinct (fault kind, class of the call hit: file-header | block-header | block-data | block-sync | plain-write, vectored?, slice in which the first partial accept ended, outcome). Vectored sinks also accept exactly n whole slices; an Interrupted at i may be followed by a hard error at j > i; after a CLEAN hard failure (nothing of the call accepted) the history goes on against the recovered sink and the final stream must be the baseline's or, judged by the reference parser, a valid file holding every other call's values in order plus all or none of the failed call's (serialize_all excepted: it stops at the failing item by contract). Five more configurations interrupt every 2nd / 3rd / 5th sink call over the WHOLE life of the writer (the number of interruptions grows with the history: hundreds to thousands). One workload in forty is a LONG history (250-400 values, a block per value or every few values). One workload in fifty is a big-blob workload (block sizes across the 8 / 32 / 64 KiB marks, contents from all zeros to incompressible). One workload in twelve carries a block of several KiB."
 	}
 	fn assumptions(&self) -> Vec<String> {
 		vec![
@@ -287,7 +287,12 @@ impl Prop for C16 {
 			push_ops: true,
 			scale: 1,
 		};
-		let mut spec = if rng.chance(1, 40) {
+		let mut spec = if rng.chance(1, 50) {
+			// blocks whose (compressed) size lands on or next to the encoders' 32 KiB / 64 KiB buffer marks and the 8 KiB
+			// marks: whatever is written differently when a buffer is exactly full goes through every sink schedule too
+			let codec = container::gen_codec(rng, true);
+			container::gen_blob_spec(rng, codec)
+		} else if rng.chance(1, 40) {
 			// a LONG history (hundreds of blocks): partial accepts and interruptions all along the writer's life
 			container::gen_long_spec(rng, &SpecProfile { heavy_codecs: false, ..profile }, 400)
 		} else {
@@ -304,7 +309,7 @@ impl Prop for C16 {
 				container::Op::Blob { len: rng.below(50) as u32, seed: rng.next_u64(), compressible: false },
 			];
 		}
-		let spec_is_long = spec.ops.iter().any(|o| matches!(o, container::Op::Many { .. }));
+		let spec_is_long = spec.ops.iter().any(|o| matches!(o, container::Op::Many { .. })) || spec.ops.iter().any(|o| matches!(o, container::Op::Blob { len, .. } if *len > 20_000));
 		Scn {
 			spec,
 			cfgs: Cfgs::Enumerate {
